@@ -187,8 +187,11 @@ def parse_output(text):
         if "VERIFICATION:- SUCCESSFUL" in raw:
             r["status"] = "success"
         elif "VERIFICATION:- FAILED" in raw:
-            real = [c for c in fc if "unwinding assertion" not in c["desc"]]
-            if fc and not real:
+            unsup = [c for c in fc if "not currently supported by Kani" in c["desc"]]
+            real = [c for c in fc if "unwinding assertion" not in c["desc"] and c not in unsup]
+            if unsup:
+                r["status"] = "unsupported"   # a construct Kani cannot model became reachable: undecided, never an alarm
+            elif fc and not real:
                 r["status"] = "unwind"
             elif real:
                 r["status"] = "failed"
